@@ -195,6 +195,9 @@ class Field:
     doc: Optional[str] = None
     arg_order: str = "ras"  # order of (r)ange, (a)ccess, (s)tride inside the attribute
     raw_ident: bool = False  # declared as r#<name> (name is a keyword); with_/set_ drop the prefix
+    attr_split: str = ""  # '' | 'access_last' | 'access_first': the arguments spread over two attributes
+    doc_hidden: bool = False  # #[doc(hidden)] on the field
+    zero_pad: bool = False  # bit positions / stride written with a leading zero (010 is decimal ten)
 
     @property
     def readable(self):
@@ -223,22 +226,27 @@ class Field:
         if self.raw_attr is not None:
             return self.raw_attr
         args = []
+        Z = (lambda v: f"0{v}") if self.zero_pad else (lambda v: f"{v}")
         if self.is_list():
             items = []
             for (lo, n) in self.ranges:
-                items.append(f"{lo}" if n == 1 else f"{lo}..={lo + n - 1}")
+                items.append(Z(lo) if n == 1 else f"{Z(lo)}..={Z(lo + n - 1)}")
             kw = "bit" if self.form == "bit_list" else "bits"
             args.append("[" + ", ".join(items) + "]")
         else:
             (lo, n) = self.ranges[0]
             if n == 1 and self.form != "bits1":
                 kw = "bit"
-                args.append(f"{lo}")
+                args.append(Z(lo))
             else:
                 kw = "bits"
-                args.append(f"{lo}..={lo + n - 1}")
+                args.append(f"{Z(lo)}..={Z(lo + n - 1)}")
         parts = {"r": args[0], "a": self.access or None,
-                 "s": (f"stride{':' if legacy else ' ='} {self.array[1]}" if (self.array and self.array[2]) else None)}
+                 "s": (f"stride{':' if legacy else ' ='} {Z(self.array[1])}" if (self.array and self.array[2]) else None)}
+        if self.attr_split and parts["a"]:
+            rest = [parts[k] for k in self.arg_order if k != "a" and parts.get(k)]
+            first, second = f"#[{kw}({', '.join(rest)})]", f"#[{kw}({parts['a']})]"
+            return (first + "\n    " + second) if self.attr_split == "access_last" else (second + "\n    " + first)
         args = [parts[k] for k in self.arg_order if parts.get(k)]
         return f"#[{kw}({', '.join(args)})]"
 
@@ -263,7 +271,7 @@ class Field:
         return out
 
     def sig(self):
-        return (self.ty.sig(), tuple(self.ranges), self.array, self.access, self.form, self.raw_attr, self.arg_order, self.raw_ident, bool(self.doc))
+        return (self.ty.sig(), tuple(self.ranges), self.array, self.access, self.form, self.raw_attr, self.arg_order, self.raw_ident, bool(self.doc), self.attr_split, self.doc_hidden, self.zero_pad)
 
 
 @dataclass
@@ -281,6 +289,7 @@ class Layout:
     const_name: str = "DEF_CONST"  # name of the named-constant default
     trailing_comma: bool = False  # #[bitfield(u32, default = 1,)]
     vis: str = "pub"  # struct visibility
+    via_macro: bool = False  # the declaration is stamped out by a macro_rules! helper (default passed as $d:expr)
     debug_first: bool = False  # `debug` written before `default`
 
     @property
@@ -332,6 +341,14 @@ class Layout:
                 args.insert(1, "debug")
             else:
                 args.append("debug")
+        macro_default = None
+        if self.via_macro and self.default:
+            for k, a_ in enumerate(args):
+                if a_.startswith("default"):
+                    macro_default = a_.split(" ", 1)[1].lstrip("=: ").strip() if " " in a_ else None
+                    sep_ = ":" if self.legacy else " ="
+                    args[k] = f"default{sep_} $d"
+        head = len(out)
         out.append(f"#[bitfield({', '.join(args)}{',' if self.trailing_comma else ''})]")
         if self.derives:
             out.append(f"#[derive({self.derives})]")
@@ -339,13 +356,18 @@ class Layout:
         for f in self.fields:
             if f.doc:
                 out.append(f"    /// {f.doc}")
+            if f.doc_hidden:
+                out.append("    #[doc(hidden)]")
             out.append(f"    {f.attr(self.legacy)}")
             out.append(f"    {'r#' if f.raw_ident else ''}{f.name}: {f.field_ty()},")
         out.append("}")
+        if macro_default is not None:
+            body = out[head:]
+            out = out[:head] + ["macro_rules! vmk_decl { ($d:expr) => {"] + ["    " + l for l in body] + ["} }", f"vmk_decl!({macro_default});"]
         return "\n".join(out)
 
     def sig(self):
-        return (self.base, tuple(f.sig() for f in self.fields), self.default, self.debug, self.legacy, self.const_name, self.trailing_comma, self.debug_first)
+        return (self.base, tuple(f.sig() for f in self.fields), self.default, self.debug, self.legacy, self.const_name, self.trailing_comma, self.debug_first, self.via_macro)
 
     # ---- rule oracle, property C09 -------------------------------------------------------------
     def rule_valid(self) -> bool:
